@@ -9,6 +9,7 @@ import (
 	"time"
 
 	"github.com/daeuniverse/dae/component/sniffing/internal/quicutils"
+	"github.com/daeuniverse/outbound/pool"
 	vs "github.com/daeuniverse/dae/zz_vs"
 )
 
@@ -402,4 +403,44 @@ func Verif_C06_quic_arbitrary() {
 	cryptos, err := quicutils.ReassembleCryptos(nil, p)
 	vs.Assert("two in-range CRYPTO frames are accepted", err == nil)
 	_, _ = extractSniFromTls(quicutils.NewLinearLocator(cryptos))
+}
+
+// Verif_C06_quic_datagram_intact: a QUIC Initial datagram with arbitrary contents goes through
+// SniffUdp. Header unprotection works in place (modelled: the first byte's low bits and 1-4 packet
+// number bytes are XOR-ed with an arbitrary mask; decryption then succeeds or fails): whatever the
+// outcome, the datagram that is later replayed to the relay (Sniffer.Data) is byte for byte what
+// the client sent.
+func Verif_C06_quic_datagram_intact() {
+	body := vs.Bytes("protected", 24) // packet number field (4) + at least the 16-byte sample + 4
+	d := []byte{0xC0 | (vs.U8("flag.low") & 0x0f)}
+	d = append(d, vs.Bytes("version", 4)...)
+	d = append(d, 2)
+	d = append(d, vs.Bytes("dcid", 2)...)
+	d = append(d, 0)  // source connection id length
+	d = append(d, 0)  // token length
+	d = append(d, 24) // length
+	d = append(d, body...)
+	orig := append([]byte{}, d...)
+	mask := vs.Bytes("hp.mask", 5)
+	fails := vs.Bool("decrypt.fails")
+	vs.Replace("github.com/daeuniverse/dae/component/sniffing/internal/quicutils.DecryptQuic_",
+		func(buf []byte, pnOffset int, blockEnd int, destConnId []byte) (pool.PB, error) {
+			buf[0] ^= mask[0] & 0x0f
+			pnLen := int(buf[0]&3) + 1
+			for i := 0; i < pnLen; i++ {
+				buf[pnOffset+i] ^= mask[1+i]
+			}
+			if fails {
+				return nil, io.ErrUnexpectedEOF
+			}
+			return pool.PB([]byte{quicutils.Quic_FrameType_Ping}), nil
+		})
+	s := NewPacketSniffer(d, time.Second)
+	_, _ = s.SniffUdp()
+	data := s.Data()
+	ok := len(data) == 1 && len(data[0]) == len(orig)
+	for i := 0; ok && i < len(orig); i++ {
+		ok = data[0][i] == orig[i]
+	}
+	vs.Assert("the datagram handed on to the relay is byte for byte what the client sent", ok)
 }
